@@ -222,7 +222,7 @@ def run(v):
     surf = api_surface.surface()
     failures, reports, errors, terms = [], [], [], []
     counts = {}
-    n = 120 if thorough else 14
+    n = 40 if thorough else 14
     tmp = tempfile.mkdtemp(prefix="xgi_c08_")
     all_recs = []
     try:
